@@ -52,10 +52,11 @@ ASSUMPTIONS = [
     "of the behaviour BEFORE those commits (fixed=false / sort_early=false), re-established by reverting the "
     "commits in a private copy; C12_table_errors_only_nonempty_gate_refuted and C12_combos_accum_refuted concern "
     "hypothetical variants (seeded changes) that were never in /repo",
-    "clause 'has a message': the 'message' field is present by construction of _create_error_object (total field in "
-    "the model); non-emptiness is proved from the translated table of literal-text lengths of the message functions "
-    "(C12_message_nonempty, kernel evaluation); the rendered text is not modelled (oracle checks it is a non-empty "
-    "str on every issue)",
+    "clause 'has a message': the 'message' field is present by construction of the model (total field); "
+    "C12_message_nonempty is a fact about the translated table kind_msg_min (literal-text length of every message "
+    "function > 0, kernel-evaluated) and is NOT linked in Coq to the i_msg field of an issue -- that every issue's "
+    "message is non-empty rests on the translator (trusted, fail closed) plus the implementation-side oracle "
+    "(non-empty str checked on every returned issue; testing); the rendered text is not modelled",
     "C12_offsets_inside / C12_*_offsets_inside assume the span facts s<=e<=|text| and idx bounds of the tags named by "
     "raw issues; for tags of a parsed string these are C02's theorems (linked by C12_parsed_tag_is_slice over C02's "
     "spec_parse where proved), the tag-relative index bounds are C01's subject and re-checked by the oracle",
